@@ -57,6 +57,30 @@ def run_guarded(program, seconds=20):
 
 # ------------------------------------------------------------------------------------------- (ii) hostile frames
 
+def _reserved_bit(s, which, respond):
+    if which == 'ka_pos':
+        b = bytearray(refcodec.encode({'type': 'KEEPALIVE', 'sid': 0, 'respond': respond, 'position': 5, 'data': b'k'}))
+        b[6] |= 0x80
+        if respond:
+            b[6:14] = b'\xff' * 8
+    elif which == 'sid_rr':
+        b = bytearray(refcodec.encode({'type': 'REQUEST_RESPONSE', 'sid': s, 'data': b'rb', 'metadata': None}))
+        b[0] |= 0x80
+    elif which == 'n_request_n':
+        b = bytearray(refcodec.encode({'type': 'REQUEST_N', 'sid': s, 'n': 3}))
+        b[6] |= 0x80
+    elif which == 'n_stream':
+        b = bytearray(refcodec.encode({'type': 'REQUEST_STREAM', 'sid': s, 'n': 3, 'data': b'rb', 'metadata': None}))
+        b[6] |= 0x80
+    elif which == 'lease_ttl':
+        b = bytearray(refcodec.encode({'type': 'LEASE', 'sid': 0, 'ttl': 1000, 'count': 2, 'metadata': None}))
+        b[6] |= 0x80
+    else:
+        b = bytearray(refcodec.encode({'type': 'LEASE', 'sid': 0, 'ttl': 1000, 'count': 2, 'metadata': None}))
+        b[10] |= 0x80
+    return bytes(b)
+
+
 def hostile_frames(raw_side):
     """Strategy for one hostile op: (ops list, set of offending stream ids)."""
     sid = st.integers(HOSTILE_BASE, HOSTILE_BASE + 60)
@@ -98,6 +122,10 @@ def hostile_frames(raw_side):
         # truncated frames
         st.builds(lambda s, cut: ([['rawbody', refcodec.encode({'type': 'REQUEST_STREAM', 'sid': s, 'n': 5, 'data': b'abcdef',
                                                                  'metadata': b'md'})[:cut]]], {s}), sid, st.integers(0, 15)),
+        # well-formed frames whose reserved (most significant) bit of a numeric field is set: stream id, 63-bit position,
+        # 31-bit request-n / ttl / count
+        st.builds(lambda s, which, resp: ([['rawbody', _reserved_bit(s, which, resp)]], {s if which not in ('ka_pos', 'lease_ttl', 'lease_n') else 0}),
+                  sid, st.sampled_from(['ka_pos', 'ka_pos', 'sid_rr', 'n_request_n', 'n_stream', 'lease_ttl', 'lease_n']), st.booleans()),
         # metadata length pointing past the end
         st.builds(lambda s: ([['rawbody', struct.pack('>IH', s, (0x0A << 10) | 0x120) + b'\xff\xff\xff' + b'xy']], {s}), sid),
     ]
